@@ -11,29 +11,39 @@ Theorem C13_popcount : forall aligned X, Forall bytes X ->
   cpp_popcount_2d aligned X = map popcount X.
 Proof. exact K1_popcount_2d. Qed.
 
-(* unpack: whenever the C++ kernel is defined it returns the NumPy value; it is defined exactly
-   for n_features = None, or a multiple of 8 not beyond the row width *)
-Theorem C13_unpack : forall nf X U, Forall bytes X ->
-  cpp_unpack_2d nf X = Some U -> U = unpack_rows nf X.
+(* unpack: defined for every n_features >= 0 (and for None), with the value of
+   np.unpackbits(count=n_features): truncation, or zero padding past the input; no hypothesis
+   on the byte values.  A negative count throws. *)
+Theorem C13_unpack : forall nf X,
+  match nf with Some n => 0 <= n | None => True end ->
+  cpp_unpack_2d nf X = Some (unpack_rows nf X).
 Proof. exact K2_unpack_2d. Qed.
-Theorem C13_unpack_defined : forall n bs, 0 <= n ->
-  ((exists u, cpp_unpack_1d (Some n) bs = Some u) <-> (n mod 8 = 0 /\ n <= 8 * zlen bs)).
-Proof. exact K2_unpack_1d_defined_Some. Qed.
+Theorem C13_unpack_1d : forall nf bs,
+  match nf with Some n => 0 <= n | None => True end ->
+  cpp_unpack_1d nf bs = Some (map b2z (unpack nf bs)).
+Proof. exact K2_unpack_1d. Qed.
+Theorem C13_unpack_negative : forall n bs, n < 0 -> cpp_unpack_1d (Some n) bs = None.
+Proof. exact K2_unpack_1d_undefined. Qed.
 
 (* centroid from sum, for every count 0 <= n < 2^63 (no bound such as 2^33) *)
 Theorem C13_centroid_unpacked : forall ls n, 0 <= n < 2^63 ->
   Forall (fun k => 0 <= k < 2^64) ls -> cpp_centroid ls n false = Some (centroid_vals ls n).
 Proof. exact K3a_centroid_unpacked. Qed.
-Theorem C13_centroid_packed : forall ls n, 0 <= n < 2^63 -> okls n ls -> zlen ls mod 8 = 0 ->
-  cpp_centroid ls n true = Some (centroid_packed ls n).
+(* packed: any sums (not only 0/1 when n <= 1), any length (not only multiples of 8) *)
+Theorem C13_centroid_packed : forall ls n, 0 <= n < 2^63 ->
+  Forall (fun k => 0 <= k < 2^64) ls -> cpp_centroid ls n true = Some (centroid_packed ls n).
 Proof. exact K3b_centroid_packed. Qed.
-(* ... and the two hypotheses are needed (open findings): *)
-Theorem C13_centroid_packed_undefined : forall ls n, zlen ls mod 8 <> 0 ->
-  cpp_centroid ls n true = None.
-Proof. exact K3c_centroid_packed_undefined. Qed.
-Theorem C13_centroid_packed_nonbinary_refuted :
-  cpp_centroid [2;0;0;0;0;0;0;0] 1 true <> Some (centroid_packed [2;0;0;0;0;0;0;0] 1).
-Proof. exact K3c_centroid_packed_needs_01. Qed.
+(* the two former counterexamples now agree *)
+Theorem C13_centroid_packed_nonbinary :
+  cpp_centroid [2;0;0;0;0;0;0;0] 1 true = Some (centroid_packed [2;0;0;0;0;0;0;0] 1) /\
+  centroid_packed [2;0;0;0;0;0;0;0] 1 = [128].
+Proof. exact K3b_centroid_packed_nonbinary. Qed.
+Theorem C13_centroid_packed_len5 :
+  cpp_centroid [3;0;1;0;7] 1 true = Some (centroid_packed [3;0;1;0;7] 1) /\
+  centroid_packed [3;0;1;0;7] 1 = [168] /\
+  cpp_centroid [3;0;1;0;3] 4 true = Some (centroid_packed [3;0;1;0;3] 4) /\
+  centroid_packed [3;0;1;0;3] 4 = [136].
+Proof. exact K3b_centroid_packed_len5. Qed.
 
 (* iSIM from sum: same floating-point bits, uint64 wrap-around included *)
 Theorem C13_isim : forall ls n, 0 <= n < 2^63 -> Forall (fun k => 0 <= k < 2^64) ls ->
@@ -49,11 +59,17 @@ Proof. exact K5_arr_vec. Qed.
 Theorem C13_argmin : forall l, no_nan l -> cpp_argmin l = argmin_f l.
 Proof. exact K6_argmin. Qed.
 
-(* most-dissimilar search, all four outputs *)
+(* most-dissimilar search, all four outputs; n_features = None or any count whose packed width
+   (n + 7) / 8 is the row width *)
 Theorem C13_most_dissimilar : forall aligned nf (w : nat) Y,
   Y <> [] -> rows_ok w Y -> zlen Y < 2^63 -> nf_ok w nf ->
   cpp_most_dissimilar aligned nf Y = Some (py_most_dissimilar_packed nf Y).
 Proof. exact K7_most_dissimilar. Qed.
+(* ... and any other count is rejected by the shape check *)
+Theorem C13_most_dissimilar_shape : forall aligned n (w : nat) Y,
+  Y <> [] -> rows_ok w Y -> 0 <= n -> (n + 7) / 8 <> Z.of_nat w ->
+  cpp_most_dissimilar aligned (Some n) Y = None.
+Proof. exact K7_most_dissimilar_shape. Qed.
 
 (* non-vacuity: a concrete 64-byte-wide input takes the word path and satisfies the hypotheses *)
 Example C13_nonvacuous :
@@ -69,3 +85,10 @@ Proof.
   refine (conj _ (conj _ (conj By (conj _ _)))); try (vm_compute; reflexivity).
   unfold rows_like. repeat (apply Forall_cons; [split; [assumption | reflexivity]|]). apply Forall_nil.
 Qed.
+
+(* non-vacuity of the widened [nf_ok]: a count that is not a multiple of 8 *)
+Example C13_nf_ok_nonmultiple : nf_ok 2 (Some 13) /\ nf_ok 2 (Some 9) /\ nf_ok 2 (Some 16) /\ nf_ok 2 None.
+Proof.
+  repeat split; try (now left); right; eexists; (split; [reflexivity|split; [discriminate|reflexivity]]).
+Qed.
+
